@@ -26,7 +26,7 @@ COMPONENTS_REAL = ["geneticengine.grammar.grammar (extract_grammar, update_weigh
 COMPONENTS_STUB = ["RandomSource.randint/random_float (SimRandom)", "set iteration order (OrderedSimSet)"]
 ASSUMPTIONS = ["not every production of an abstract type has weight zero", "declared weight of an abstract production (nested abstract type) is 1 unless declared"]
 
-FEAT = features(weights=3, nested=2, unreachable=2, standalone=1, cls=6, refined=2, list=1, annlist=1, union=0, tuple=0)
+FEAT = features(weights=3, nested=2, unreachable=2, standalone=1, cls=6, refined=3, list=1, annlist=1, union=0, tuple=0, flaky=2, dependent=1)
 
 
 def budget(tier):
@@ -117,6 +117,11 @@ def run(ctx):
                     return
                 if weights[i] <= 0 and any(x > 0 for x in weights):
                     bad.append(("zero-weight-option", (getattr(result, "__name__", str(result)), list(weights))))
+                # independent of the weights the chooser was handed: the production's DECLARED weight
+                rn = b.name_of.get(result)
+                if rn is not None and declared.get(rn, 1.0) == 0.0 and any(x > 0 for x in weights) and \
+                        any(declared.get(b.name_of.get(c), 1.0) > 0 for c in choices if c in b.name_of):
+                    bad.append(("declared-zero-weight-production-chosen", (rn, [b.name_of.get(c, str(c)) for c in choices], list(weights))))
 
         rnd.monitor = monitor
         from geneticengine.representations.tree.initializations import ProgressivelyTerminalDecider
@@ -126,6 +131,17 @@ def run(ctx):
         from ..seams import install_gene_read_cap, reset_gene_read_cap
 
         install_gene_read_cap()
+        from .. import flaky as _flaky
+        den = H.pick([0, 2, 3])
+        S = ctx.S
+
+        def plan():
+            hit = bool(den) and S.draw(den) == den - 1
+            if hit:
+                ctx.faults["synthesis_exception"] += 1
+            return hit
+
+        _flaky.Flaky.plan = plan
         which = H.pick(["progressive", "progressive", "stack"])
         for _ in range(1 + H.draw(4)):
             try:
@@ -158,4 +174,7 @@ def run(ctx):
                 ctx.violate(f"C19/chooser/{which}/{cause}", f"a weight-aware choice under policy {policy} returned {detail}")
                 return
     finally:
+        from .. import flaky as _flaky2
+
+        _flaky2.Flaky.plan = None
         b.dispose()
